@@ -145,6 +145,17 @@ def check(ctx):
     from .C05 import check_tiles
     check_tiles(ctx, ('diff_exp.precompute_from_anndata',
                       'diff_exp.precompute_utils'), floor=1)
+    # the reference files named by the caller are the files summed over:
+    # every front end hands its data_path_list on as received (rule of
+    # C03); which files contribute is decided from their cells, below
+    from .C03 import check_settings_forwarded_unchanged
+    n = check_settings_forwarded_unchanged(
+        ctx, ('data_path_list', 'cluster_to_input_row',
+              'cell_name_to_cluster_name', 'cluster_to_output_row'),
+        modules=('diff_exp.precompute_from_anndata',),
+        consequence='the statistics are summed over other cells than the '
+                    'files and the taxonomy name')
+    ctx.floor('R-FWD/handed-on-unchanged', 2)
     from .C05 import sweep_generic_rules
     sweep_generic_rules(ctx, ('diff_exp.precompute',))
     # settings this property depends on are handed down every call
